@@ -28,6 +28,8 @@ type callSig struct {
 	Counts map[string]int `json:"counts,omitempty"`
 	// Order: pairs "A => B" of callees the function body itself (closures excluded) calls exactly once, where A executes before B on every path that reaches B
 	Order []string `json:"order,omitempty"`
+	// Always: the event classes of which some member runs on every path from entry to a return
+	Always []string `json:"always,omitempty"`
 }
 
 // events: the calls and field stores of fn's own body (closures and defers excluded), grouped into classes: two
@@ -140,6 +142,99 @@ func orderEdges(c *Ctx, fn *ssa.Function) []string {
 		}
 	}
 	return out
+}
+
+// alwaysEvents: the classes one of whose members executes on every path from the entry to a return statement
+// (paths that end in a panic do not count).
+func alwaysEvents(evs map[string][]ssa.Instruction, fn *ssa.Function) []string {
+	var out []string
+	for k, members := range evs {
+		if runsOnEveryPath(fn, members) {
+			out = append(out, k)
+		}
+	}
+	sort.Strings(out)
+	return out
+}
+
+func runsOnEveryPath(fn *ssa.Function, members []ssa.Instruction) bool {
+	blocked := map[*ssa.BasicBlock]bool{}
+	for _, m := range members {
+		blocked[m.Block()] = true
+	}
+	seen := map[*ssa.BasicBlock]bool{}
+	work := []*ssa.BasicBlock{fn.Blocks[0]}
+	for len(work) > 0 {
+		b := work[len(work)-1]
+		work = work[:len(work)-1]
+		if seen[b] || blocked[b] {
+			continue
+		}
+		seen[b] = true
+		if _, isRet := b.Instrs[len(b.Instrs)-1].(*ssa.Return); isRet {
+			return false // a return reached without passing a member
+		}
+		work = append(work, b.Succs...)
+	}
+	return true
+}
+
+// ruleAlwaysRatchet: a step that ran on every path still does.
+func (c *Ctx) ruleAlwaysRatchet(rule string, pkgs []string, fileFilter func(file string) bool, baselineFile string, min int) {
+	r := c.R
+	r.Rule(rule, "bypass ratchet: the committed baseline records, per function, the calls and field stores (classes as in the order ratchet) that run on every path from the entry to a return. If each of those steps is still in the function and one of them can now be bypassed — a new early return or branch around a cancel, a wait, a drain, a reset — the reviewed behaviour 'this always happens' is gone", min)
+	var base []callSig
+	b, err := os.ReadFile(filepath.Join(homeDir(), baselineFile))
+	if err != nil || json.Unmarshal(b, &base) != nil {
+		r.Undec(rule, "-", "baseline:"+baselineFile, "-", "baseline file missing or unreadable")
+		return
+	}
+	for _, bs := range base {
+		inPkgs := false
+		for _, pk := range pkgs {
+			if strings.Contains(bs.Func, pk+".") {
+				inPkgs = true
+			}
+		}
+		if !inPkgs || len(bs.Always) < 1 || (fileFilter != nil && !fileFilter(bs.File)) {
+			continue
+		}
+		fn := c.P.Func(bs.Func)
+		cons := fmt.Sprintf("%d unconditional steps", len(bs.Always))
+		if fn == nil || fn.Blocks == nil {
+			r.Add(oblT(rule, bs.Func, cons, bs.File, "ok", "the function no longer exists: not decided", nil, true))
+			continue
+		}
+		uc := events(c, fn)
+		// decided when every recorded unconditional step is still there (other steps may have come or gone: a new
+		// guard usually brings a call of its own)
+		same := true
+		for _, k := range bs.Always {
+			if _, ok := uc[k]; !ok {
+				same = false
+			}
+		}
+		if !same {
+			r.Add(oblT(rule, bs.Func, cons, bs.File, "ok", "an unconditional step of the reviewed tree is no longer in the function (moved or rewritten): not decided", nil, true))
+			continue
+		}
+		lost := ""
+		for _, k := range bs.Always {
+			if !runsOnEveryPath(fn, uc[k]) {
+				name := k
+				if j := strings.LastIndex(k, "~"); j > 0 {
+					name = k[:j]
+				}
+				lost = name + " (" + c.P.InstrPos(uc[k][0]) + ")"
+				break
+			}
+		}
+		if lost == "" {
+			r.Ok(rule, bs.Func, cons, bs.File, "every unconditional step still runs on every path")
+		} else {
+			r.Bad(rule, bs.Func, cons, bs.File, "a step that ran on every path can now be bypassed: "+lost)
+		}
+	}
 }
 
 // executesBefore: x can be followed by y, and y can never be followed by x (strict order along control flow).
@@ -476,7 +571,7 @@ func (c *Ctx) callSigs(pkgs []string) []callSig {
 				}
 			}
 			order := orderEdges(c, fn)
-			out = append(out, callSig{Func: ir.FuncKey(fn), File: file, Callees: sortedKeys(set), Counts: counts, Order: order, NEvents: countEvents(events(c, fn)), Returns: countReturns(fn)})
+			out = append(out, callSig{Func: ir.FuncKey(fn), File: file, Callees: sortedKeys(set), Counts: counts, Order: order, Always: alwaysEvents(events(c, fn), fn), NEvents: countEvents(events(c, fn)), Returns: countReturns(fn)})
 		}
 	}
 	sort.Slice(out, func(i, j int) bool { return out[i].Func < out[j].Func })
